@@ -2,6 +2,7 @@
 From Coq Require Import List ZArith NArith Bool Arith String Permutation.
 From CE Require Import Num OField Str TableTypes TableModel Comp ESpec CompOps CompSpec CompInv NumQc OFieldQc Table.
 Import ListNotations.
+From Coq Require Qcanon. Notation Qc := Qcanon.Qc (only parsing). Local Close Scope Z_scope.
 
 Section C02.
   Context {F : Type} (N : Num F).
